@@ -80,7 +80,8 @@ func errStr(err error) string {
 //
 //	R final reply      C continues reply      E error reply t.a.Err     N error reply with an
 //	invalid name (refused)   O error reply in the reserved namespace (refused)   X return a
-//	handler error      B block until the context is cancelled, then return its error
+//	handler error      K continues reply leaving Call.Continues set      M built-in MethodNotFound reply by the handler
+//	B block until the context is cancelled, then return its error
 //	G GetParameters and reply them back (echo)    Z no action (pure scheduling point)
 func (d *disp) VarlinkDispatch(ctx context.Context, c varlink.Call, method string) error {
 	w := d.w
@@ -114,6 +115,24 @@ func (d *disp) VarlinkDispatch(ctx context.Context, c varlink.Call, method strin
 				return err
 			}
 			log("C:" + errStr(err))
+		case 'K':
+			// a continues reply whose handler leaves Call.Continues set afterwards (it is the handler's
+			// flag for "the reply being sent is not the last one"; error replies never carry it)
+			n++
+			c.Continues = true
+			err := c.Reply(ctx, map[string]int{"c": n})
+			if err != nil && c.WantsMore() {
+				log("K:ioerr")
+				return err
+			}
+			log("K:" + errStr(err))
+		case 'M':
+			// a built-in error reply sent by the handler itself
+			if err := c.ReplyMethodNotFound(ctx, "m"); err != nil {
+				log("M:ioerr")
+				return err
+			}
+			log("M:ok")
 		case 'E':
 			if err := c.ReplyError(ctx, "t.a.Err", map[string]int{"e": 1}); err != nil {
 				log("E:ioerr")
